@@ -245,7 +245,7 @@ func runWorker(cfg *config, job *Job, from, to, stride uint64, deadline time.Tim
 				lastMu.Lock()
 				idle := time.Since(last)
 				lastMu.Unlock()
-				if idle > 300*time.Second {
+				if idle > 600*time.Second {
 					killed = true
 					cmd.Process.Kill()
 					return
@@ -383,7 +383,7 @@ func runWorker(cfg *config, job *Job, from, to, stride uint64, deadline time.Tim
 		jr.infra = append(jr.infra, fmt.Sprintf("watchdog: worker grew to %d MB resident in run %d of job %s (seed %d) and was stopped", memKilled, inflight, job.Name, job.Seed))
 		return 0, true
 	case killed:
-		jr.infra = append(jr.infra, fmt.Sprintf("watchdog: worker made no progress for 300 s in run %d of job %s (seed %d)", inflight, job.Name, job.Seed))
+		jr.infra = append(jr.infra, fmt.Sprintf("watchdog: worker made no progress for 600 s in run %d of job %s (seed %d)", inflight, job.Name, job.Seed))
 		return 0, true
 	case code == 6 && inflight >= 0 && cfg.prop != "C06" && cfg.prop != "C03":
 		// a call executed alone (solo phase / one-task run) blocks for ever: a
